@@ -194,6 +194,34 @@ class Ctx:
             shutil.rmtree(base, ignore_errors=True)
         return agg
 
+
+    # ------------------------------------------------------- reference JS parsers
+    def ref_parse(self, items, timeout=900):
+        """items: [{id, text, tree?, allowReturn?}] -> {id: {v8, acorn, tree?}} from node's V8 and
+        its bundled acorn (engine/ref.js).  Reference parsers never see xjs."""
+        if shutil.which("node") is None:
+            raise Infra("node is not available: no reference JavaScript parser")
+        out = {}
+        procs = min(NCPU, max(1, len(items) // 2000))
+        import concurrent.futures
+
+        def one(chunk):
+            inp = "\n".join(json.dumps(i, separators=(",", ":")) for i in chunk) + "\n"
+            p = subprocess.run(["node", "--expose-internals", os.path.join(VERIF, "engine", "ref.js")], input=inp,
+                               capture_output=True, text=True, timeout=timeout)
+            if p.returncode != 0:
+                raise Infra("reference parser failed: %s" % p.stderr[-500:])
+            return [json.loads(l) for l in p.stdout.splitlines() if l.strip()]
+        with concurrent.futures.ThreadPoolExecutor(max_workers=procs) as ex:
+            for rs in ex.map(one, [items[k::procs] for k in range(procs)]):
+                for r in rs:
+                    out[_key(r["id"])] = r
+        if len(out) != len(items):
+            raise Infra("reference parser answered %d of %d" % (len(out), len(items)))
+        if any(r.get("acorn") is None for r in out.values()):
+            raise Infra("node's bundled acorn is not reachable (--expose-internals)")
+        return out
+
     # --------------------------------------------------------------- verdicts
     def violation(self, case, clause, detail=None):
         """Record a violation observed on the REAL code (caller has reproduced it)."""
